@@ -74,6 +74,7 @@ def run_case(case, ctx):
         cons = out.cons
         rks = [canon_ranking(r) for r in cons.consensus_rankings]
         refs = [model.ref_score(r, mr, B, T) for r in rks]
+        ctx.event("result", [jsonable_ranking(r) for r in rks], refs)
         t = dict(tags, alg=out.label.split("(")[0], env=ctx.env, label=out.label)
         repro = dict(case, calls=[dict(c, sched={"draws": out.picks, "fallback": "first", "seed": 0})])
 
